@@ -1,7 +1,7 @@
 //! The RWA identity stack wired from the library's own functions: claim-topics-and-issuers registry,
 //! identity registry storage, identity (claims holder), identity verifier, and a claim issuer
 //! assembled from the helpers exactly as the module documentation shows (three schemes).
-use soroban_sdk::{contract, contractimpl, Address, Bytes, BytesN, Env, Map, String, Vec};
+use soroban_sdk::{contract, contractimpl, symbol_short, Address, Bytes, BytesN, Env, IntoVal, Map, String, Val, Vec};
 use stellar_tokens::rwa::claim_issuer::{
     allow_key, get_current_nonce_for, get_keys_for_topic, get_registries, invalidate_claim_signatures, is_claim_expired,
     is_claim_revoked, is_key_allowed_for_registry, is_key_allowed_for_topic, remove_key, set_claim_revoked, Ed25519Verifier,
@@ -204,6 +204,27 @@ impl IssuerC {
                 check::<Secp256k1Verifier>(e, sd.public_key.clone().into(), &identity, claim_topic, scheme, &sd, &claim_data)
             }
             _ => panic!("unknown scheme"),
+        }
+    }
+}
+
+// ---------------- a scripted issuer that is NOT built from the helpers ----------------
+/// Answers `is_claim_valid` as told: 0 = confirms (returns unit, as the interface says), 1 = rejects
+/// by failing, 2 = rejects by *returning* `false` (a normal return of the wrong shape - an issuer
+/// written in the bool style of the module documentation's usage example).
+#[contract]
+pub struct ScriptIssuer;
+
+#[contractimpl]
+impl ScriptIssuer {
+    pub fn set_mode(e: &Env, mode: u32) {
+        e.storage().instance().set(&symbol_short!("MODE"), &mode);
+    }
+    pub fn is_claim_valid(e: &Env, _identity: Address, _claim_topic: u32, _scheme: u32, _sig_data: Bytes, _claim_data: Bytes) -> Val {
+        match e.storage().instance().get::<_, u32>(&symbol_short!("MODE")).unwrap_or(0) {
+            0 => ().into_val(e),
+            1 => panic!("claim rejected"),
+            _ => false.into_val(e),
         }
     }
 }
